@@ -118,6 +118,9 @@ let run (input : string) (obs : string) : string * string =
     let unmappable = (not (known_ns tu.t_ns)) || (tu.t_sid = None && tu.t_sset = None)
                      || (match tu.t_sid, tu.t_sset with None, Some ss -> not (known_ns ss.ss_ns) | _ -> false) in
     if obs = "hang" then ("SKIP", "fail:check-did-not-return") else
+    (* the harness measured more storage operations than its budget for one check (exponentially many sub-checks under
+       a deep limit): bounded, but neither side evaluates it *)
+    if obs = "costly" then ("SKIP", "na") else
     if unmappable then ("maperr", if obs = "maperr" then "pass" else "na") else begin
       match run_check tu rd (fun _ -> false) with
       | None -> ("OUTOFGAS", "na")
